@@ -263,6 +263,12 @@ func (valSet *ValidatorSet) VerifyCommit(chainID string, blockID BlockID, height
 			return fmt.Errorf("Invalid commit -- not precommit @ index %v", idx)
 		}
 		_, val := valSet.GetByIndex(idx)
+		// The vote must be the one of the validator in whose slot it sits: the signature does not cover
+		// ValidatorIndex / ValidatorAddress, and a stored commit is later fed to VoteSet.AddVote
+		// (reconstructLastCommit), which trusts neither.
+		if precommit.ValidatorIndex != idx || !bytes.Equal(precommit.ValidatorAddress, val.Address) {
+			return fmt.Errorf("Invalid commit -- precommit @ index %v carries validator index %v, address %X", idx, precommit.ValidatorIndex, precommit.ValidatorAddress)
+		}
 		// Validate signature
 		precommitSignBytes := SignBytes(chainID, precommit)
 		if !val.PubKey.VerifyBytes(precommitSignBytes, precommit.Signature) {
